@@ -132,10 +132,14 @@ type env struct {
 	last map[string]int8   // loop key -> +1 (this iteration is the last) / -1 (it is not)
 	phis map[string]int    // frame id + phi name -> chosen edge
 	lenz map[string]int8   // origin string -> +1 len==0, -1 len>0
+	rets map[string]*origin.O // calling frame id + call register -> origin of the value a pure helper returned on this path
 }
 
 func (e env) clone() env {
-	n := env{ops: map[string]uint32{}, last: map[string]int8{}, phis: map[string]int{}, lenz: map[string]int8{}}
+	n := env{ops: map[string]uint32{}, last: map[string]int8{}, phis: map[string]int{}, lenz: map[string]int8{}, rets: map[string]*origin.O{}}
+	for k, v := range e.rets {
+		n.rets[k] = v
+	}
 	for k, v := range e.ops {
 		n.ops[k] = v
 	}
@@ -153,6 +157,9 @@ func (e env) clone() env {
 
 func (e env) key() string {
 	var parts []string
+	for k, v := range e.rets {
+		parts = append(parts, fmt.Sprintf("r:%s=%s", k, v.String()))
+	}
 	for k, v := range e.ops {
 		parts = append(parts, fmt.Sprintf("o:%s=%x", k, v))
 	}
@@ -449,6 +456,12 @@ func callOrdinal(c *ssa.Call) int {
 func (b *Builder) resolver(fr *frame, e env) *origin.Resolver {
 	r := origin.NewResolver()
 	r.Hook = func(v ssa.Value, of *origin.Frame) *origin.O {
+		if c, isCall := v.(*ssa.Call); isCall && of != nil && e.rets != nil {
+			if o, ok := e.rets[of.ID+"/"+c.Name()]; ok {
+				return o
+			}
+			return nil
+		}
 		ph, ok := v.(*ssa.Phi)
 		if !ok || of == nil {
 			return nil
@@ -588,7 +601,7 @@ func (b *Builder) build(root *ssa.Function, obj *ssa.Alloc, fr *frame) *Graph {
 	b.frames = map[string]*frame{}
 	b.nodes = map[string]*Node{}
 	b.pending = nil
-	e := env{ops: map[string]uint32{}, last: map[string]int8{}, phis: map[string]int{}, lenz: map[string]int8{}}
+	e := env{ops: map[string]uint32{}, last: map[string]int8{}, phis: map[string]int{}, lenz: map[string]int8{}, rets: map[string]*origin.O{}}
 	if fr == nil {
 		fr = b.frameFor(nil, nil, root, e)
 	}
@@ -804,6 +817,11 @@ func (b *Builder) next(s state, seen map[string]bool) []*Node {
 				}
 				nf := b.frameFor(s.fr, x, cal, s.env)
 				s = state{fr: nf, blk: cal.Blocks[0], idx: 0, env: s.env}
+			case cal != nil && b.emitters[s.fr.fn] && b.valueHelper(cal) && depthOf(s.fr) <= 12:
+				// a pure helper that computes a value for an emission (an offset, a return word): explore it like an emitter so
+				// that the branches it takes (byte order, action == errno) are known when the value is used
+				nf := b.frameFor(s.fr, x, cal, s.env)
+				s = state{fr: nf, blk: cal.Blocks[0], idx: 0, env: s.env}
 			default:
 				s = adv
 			}
@@ -823,7 +841,12 @@ func (b *Builder) next(s state, seen map[string]bool) []*Node {
 			}
 			// continue in the caller after the call
 			call := s.fr.call
-			s = state{fr: s.fr.parent, blk: call.Block(), idx: instrIndex(call) + 1, env: b.dropFrame(s.env, s.fr)}
+			ne := b.dropFrame(s.env, s.fr)
+			if !b.emitters[s.fr.fn] && len(x.Results) == 1 {
+				// a value helper: remember what it returned on this path
+				ne.rets[s.fr.parent.id+"/"+call.Name()] = b.resolver(s.fr, s.env).Of(x.Results[0], s.fr.of, x)
+			}
+			s = state{fr: s.fr.parent, blk: call.Block(), idx: instrIndex(call) + 1, env: ne}
 		case *ssa.Jump:
 			s = b.enter(s, s.blk, s.blk.Succs[0])
 		case *ssa.If:
@@ -922,6 +945,11 @@ func (b *Builder) dropFrame(e env, fr *frame) env {
 	for k := range ne.last {
 		if strings.HasPrefix(k, fr.id+"/") {
 			delete(ne.last, k)
+		}
+	}
+	for k := range ne.rets {
+		if strings.HasPrefix(k, fr.id+"/") {
+			delete(ne.rets, k)
 		}
 	}
 	return ne
@@ -1095,7 +1123,7 @@ func (b *Builder) branch(ifi *ssa.If, s state) (t, f *state) {
 	if bo, ok := cond.(*ssa.BinOp); ok {
 		// ---- byte order: nativeEndian == binary.LittleEndian / BigEndian (one consistent world per exploration)
 		if bo.Op == token.EQL || bo.Op == token.NEQ {
-			if which := endianTest(bo); which != 0 {
+			if which := endianTestIn(bo, s.fr); which != 0 {
 				want := which // +1: test is "== little", -1: test is "== big"
 				if bo.Op == token.NEQ {
 					want = -want
@@ -1249,7 +1277,41 @@ func (b *Builder) firstEntry(ph *ssa.Phi, s state) bool {
 }
 
 // endianTest recognises `nativeEndian == binary.LittleEndian` (+1) / `== binary.BigEndian` (-1).
-func endianTest(bo *ssa.BinOp) int {
+// endianTestIn is endianTest with the byte order possibly handed in as a parameter (`nativeEndian == secondWordOn`).
+func endianTestIn(bo *ssa.BinOp, fr *frame) int {
+	if w := endianTest(bo); w != 0 {
+		return w
+	}
+	sub := func(v ssa.Value) ssa.Value {
+		f := fr
+		for i := 0; i < 8; i++ {
+			p, ok := v.(*ssa.Parameter)
+			if !ok || f == nil || f.call == nil {
+				return v
+			}
+			idx := -1
+			for k, q := range f.fn.Params {
+				if q == p {
+					idx = k
+				}
+			}
+			if idx < 0 || idx >= len(f.call.Call.Args) {
+				return v
+			}
+			v, f = f.call.Call.Args[idx], f.parent
+		}
+		return v
+	}
+	x, y := sub(bo.X), sub(bo.Y)
+	if x == bo.X && y == bo.Y {
+		return 0
+	}
+	return endianTest2(x, y)
+}
+
+func endianTest(bo *ssa.BinOp) int { return endianTest2(bo.X, bo.Y) }
+
+func endianTest2(X, Y ssa.Value) int {
 	isNative := func(v ssa.Value) bool {
 		ld, ok := v.(*ssa.UnOp)
 		if !ok {
@@ -1278,13 +1340,60 @@ func endianTest(bo *ssa.BinOp) int {
 		}
 		return 0
 	}
-	if isNative(bo.X) {
-		return which(bo.Y)
+	if isNative(X) {
+		return which(Y)
 	}
-	if isNative(bo.Y) {
-		return which(bo.X)
+	if isNative(Y) {
+		return which(X)
 	}
 	return 0
+}
+
+// valueHelper: a function of the package that only computes a value: no stores other than into its own locals, no calls
+// other than builtins and other value helpers, a single non-pointer result.
+func (b *Builder) valueHelper(f *ssa.Function) bool {
+	return b.valueHelperD(f, 0)
+}
+
+func (b *Builder) valueHelperD(f *ssa.Function, depth int) bool {
+	if f == nil || depth > 3 || f.Pkg != b.Pkg || len(f.Blocks) == 0 || b.emitters[f] || b.patcher[f] || b.newFns[f] {
+		return false
+	}
+	if f.Signature.Results().Len() != 1 {
+		return false
+	}
+	if _, ok := f.Signature.Results().At(0).Type().Underlying().(*types.Basic); !ok {
+		return false
+	}
+	nb := 0
+	for _, blk := range f.Blocks {
+		nb++
+		for _, in := range blk.Instrs {
+			switch x := in.(type) {
+			case *ssa.Store:
+				if _, ok := x.Addr.(*ssa.Alloc); !ok {
+					if fa, ok := x.Addr.(*ssa.FieldAddr); !ok || !isLocalAlloc(fa.X) {
+						return false
+					}
+				}
+			case *ssa.MapUpdate, *ssa.Go, *ssa.Defer, *ssa.Send, *ssa.Panic:
+				return false
+			case *ssa.Call:
+				if _, isB := x.Call.Value.(*ssa.Builtin); isB {
+					continue
+				}
+				if !b.valueHelperD(x.Call.StaticCallee(), depth+1) {
+					return false
+				}
+			}
+		}
+	}
+	return nb <= 12
+}
+
+func isLocalAlloc(v ssa.Value) bool {
+	al, ok := v.(*ssa.Alloc)
+	return ok && !al.Heap
 }
 
 // EndianOf reports the byte-order world of a node (+1 little, -1 big, 0 not yet decided on its paths).
